@@ -34,6 +34,16 @@ def shapes():
             for a1 in ["0", "m1", "c", "q"]:
                 if "q" in b or a0 == "q" or a1 == "q":
                     out.append({"b": list(b), "a": [a0, a1]})
+    # concrete numerals -2, 3, 0.5 (they can be ordered and passed to abs(), unlike the generic sentinels)
+    for a0 in ("n2", "p3", "h"):
+        for b in itertools.product(["0", "1", "c"], repeat=2):
+            for a1 in ("0", "m1", "c", "n2"):
+                out.append({"b": list(b), "a": [a0, a1]})
+    for b0 in ("n2", "p3", "h"):
+        for b1 in ("0", "c"):
+            for a0 in ("1", "c"):
+                for a1 in ("0", "c", "n2", "p3"):
+                    out.append({"b": [b0, b1], "a": [a0, a1]})
     for d in (8, 16):
         for c in ("c", "1", "m1"):
             out.append({"b": ["0"] * d + [c], "a": ["c"]})
@@ -91,7 +101,8 @@ def capture(repo, shape_list, tool="filters.py"):
 
 
 def coef_expr(cls, name):
-    return {"0": "0", "1": "1", "m1": "(-1)", "c": name, "s": name[2:] + "[k]", "q": "(%sn / %sd)" % (name, name)}[cls]
+    return {"0": "0", "1": "1", "m1": "(-1)", "c": name, "s": name[2:] + "[k]", "q": "(%sn / %sd)" % (name, name),
+            "n2": "(-2)", "p3": "3", "h": "0.5"}[cls]
 
 
 X = SpecLambda("lambda i: ite(i >= 0, seq[i], zero)")
@@ -239,8 +250,18 @@ def native_bounded(tool, label, bound, props):
     return hook
 
 
+def capture_errors_hook(prop, repo, tier, seed, extra):
+    """shapes for which the real code could not be run with the generic sentinels: undecided, handed to the native search"""
+    if prop not in ("C04", "C06") or not CAPTURE_ERRORS:
+        return
+    ex = CAPTURE_ERRORS[0]
+    extra.setdefault("undecided", []).append({
+        "contract": __contracts__[0].name if __contracts__ else "gen", "count": len(CAPTURE_ERRORS),
+        "message": "%d coefficient shapes could not be captured from the real __call__ (e.g. b=%r a=%r: %s)" % (len(CAPTURE_ERRORS), ex.get("b"), ex.get("a"), ex.get("error"))})
+
+
 if __contracts__:
-    __contracts__[0].extra_checks = [native_bounded(
+    __contracts__[0].extra_checks = [capture_errors_hook, native_bounded(
         "filter_pre.py", "LinearFilter.__call__ before code generation (memory normalisation, causality, a0 == 0)",
         "denominator lengths 1..5, memory kinds {None, list exact/longer, tuple, generator, Stream, callable}", ["C04"])]
 
